@@ -80,7 +80,7 @@ pub fn gen_conc(property: &str, profile: &str, seed: u64) -> Plan {
             }
             clients.push(ops);
         }
-        let mut s = SessionPlan { lazy_init: phase == 0 && sw.rng.chance(1, 6), pre: vec![], clients, end: SessionEnd::Close, validate_data: None, ignore_corrupted: None, bloom_alt: None, bloom_use_alt: false };
+        let mut s = SessionPlan { lazy_init: phase == 0 && sw.rng.chance(1, 6), pre: vec![], clients, end: SessionEnd::Close, validate_data: None, ignore_corrupted: None, bloom_alt: None, bloom_use_alt: false, bloom_alt_off: false };
         if burst {
             // the active blob is brought to its limit and aged past the debounce by a prologue client
             let mut pro = Vec::new();
